@@ -4,11 +4,14 @@
            (or forwards / delegates to the same node); the value handed to the visitor is the value read
   BOOL     boolean byte: arms 0, 1, other => Err
   UTF8     every &str handed to a visitor from input bytes passed str::from_utf8
-  INDEX    union / enum indices go through `.get(i)` with None => Err, i being the decoded discriminant itself
+  INDEX    union / enum indices go through `.get(i)` with None => Err, i being the decoded discriminant itself; no
+           table is indexed directly by a decoded discriminant unless a `.get` on this path already answered Some
   LENGTHS  i64 -> usize conversions of lengths / discriminants are checked (try_into + error), no lossy `as`
   BOUNDS   slice reads are bounded (n > len => Err)
   BLOCKS   block-header protocol of arrays/maps (negative count => byte size read on both paths, no overflowing
            negation, zero count ends, countdown re-enters the header read at zero)
+           the only skip in the block header is the one by the advertised byte size (no computed skip)
+  SHORTREAD no plain io::Read::read judged by its count outside forwarding Read implementations (shared with C11)
 It does NOT decide that the produced value is *the* value.
 """
 from ..lib import *
